@@ -121,7 +121,8 @@ def main(tier: str, seed: int, opts) -> int:
         "fault_kinds_fired": {"interrupt_inside_query_or_parse": stats.get("interrupt_fired", 0),
                               "interrupted_parse_then_reparse": stats.get("interrupted_parse", 0),
                               "in_place_mutation_of_returned_value": stats.get("mutations", 0),
-                              "consumer_rewrote_returned_chain": stats.get("consumes", 0)},
+                              "consumer_rewrote_returned_chain": stats.get("consumes", 0),
+                              "reparse_attempt_under_warnings_as_errors": stats.get("strict_reparse_attempts", 0)},
         "operation_outcome_kinds_reached": sorted(opkinds),
         "file_sessions_over_time_budget": harness_timeouts,
         "regression_replays_run": n_reg,
